@@ -99,6 +99,55 @@ example : runOps ttlOps (fun x : Nat => x % 2) (fun x => x % 2) ⟨Clem.TtlLru.N
 example : runOps ttlOps (fun x : Nat => x % 2) (fun x => x) ⟨Clem.TtlLru.Ns.init 2 300, 0⟩
     [.req 1, .req 3] = [some 1, some 1] := by decide
 
+/-- **Value sharing (model fact).**  The engine's caches keep the very object they hand out (reference semantics).
+With the property's operation alphabet — turns, graph edits, memory adds, applies, agent switches, configuration
+changes: none of them edits a result a stage has returned — by-reference storage behaves exactly like storage of
+detached copies, hence is transparent for a sufficient key.  Formally: on every history without caller-edit events the
+two semantics produce the same run … -/
+theorem C05_reference_eq_copy_without_caller_edits {X : Type} (key : X → Nat) (f : X → List Nat) :
+    ∀ (es : List (Ev X)) (s : AState), (∀ e ∈ es, ∃ x, e = Ev.req x) →
+      runOps refOps key f s es = runOps copyOps key f s es := by
+  intro es
+  induction es with
+  | nil => intro s _; rfl
+  | cons e es ih =>
+    intro s h
+    obtain ⟨x, rfl⟩ := h e (List.mem_cons_self ..)
+    have ih' := fun s' => ih s' (fun e' he' => h e' (List.mem_cons_of_mem _ he'))
+    simp only [runOps, stepOps, refOps, copyOps] at ih' ⊢
+    cases hg : (aGet s (key x)).2 <;> simp only [ih']
+
+/-- … so the cache as the code has it (by reference) is transparent over every history of the property's alphabet. -/
+theorem C05_reference_semantics_transparent {X : Type} (key : X → Nat) (f : X → List Nat) (hs : Sufficient key f)
+    (es : List (Ev X)) (h : ∀ e ∈ es, ∃ x, e = Ev.req x) :
+    runOps refOps key f ⟨[], none⟩ es = runUncached f es := by
+  rw [C05_reference_eq_copy_without_caller_edits key f es _ h, copyOps_eq]
+  refine C05_runOps_transparent copySem key f hs es _ (good_of_empty _ _ _ _ ?_)
+  intro k v hh
+  exact absurd hh (by simp [copySem, AHolds])
+
+/-- Detached copies would additionally tolerate callers that edit their results (any history, edits included). -/
+theorem C05_copy_semantics_transparent {X : Type} (key : X → Nat) (f : X → List Nat) (hs : Sufficient key f)
+    (es : List (Ev X)) : runOps copyOps key f ⟨[], none⟩ es = runUncached f es := by
+  rw [copyOps_eq]
+  refine C05_runOps_transparent copySem key f hs es _ (good_of_empty _ _ _ _ ?_)
+  intro k v h
+  exact absurd h (by simp [copySem, AHolds])
+
+/-- OUTSIDE THE PROPERTY (alphabet extended with a caller edit): request, the caller appends 9 to its result, same
+request again — under reference semantics the hit returns the edited list.  This is why an in-repo regression that
+makes engine code edit a cached / served object during an ordinary turn (e.g. adopting a cached delta list as an
+accumulator) breaks transparency: it adds such an edit to every turn. -/
+theorem C05_reference_semantics_with_caller_edit_not_transparent :
+    runOps refOps (fun x : Nat => x) (fun x => [x]) ⟨[], none⟩ [.req 1, .other 9, .req 1]
+      ≠ runUncached (fun x : Nat => [x]) [.req 1, .other 9, .req 1] := by decide
+
+example : runOps copyOps (fun x : Nat => x) (fun x => [x]) ⟨[], none⟩ [.req 1, .other 9, .req 1]
+    = [some [1], none, some [1]] := by decide
+
+example : runOps refOps (fun x : Nat => x) (fun x => [x]) ⟨[], none⟩ [.req 1, .req 2, .req 1]
+    = [some [1], some [2], some [1]] := by decide
+
 /-- The TTL LRU retains a fresh entry (cap ≥ 1, clock unchanged): the necessity theorem applies to it. -/
 theorem C05_ttl_retains (max ttl now : Int) (hm : 1 ≤ max) (ht : 0 ≤ ttl) (k v : Nat) :
     (ttlGet (ttlPut (ttlGet ⟨Clem.TtlLru.Ns.init max ttl, now⟩ k).1 k v) k).2 = some v := by
